@@ -273,59 +273,41 @@ Fixpoint handlers_ok (hs : list (errkind * hact)) : bool :=
   | _ => false
   end.
 
-Definition cfg_good : bool :=
+(** loadCollisions touches the attribute only through the load, errors pass unchanged *)
+Definition prog_good : bool := prog_ok && handlers_ok (c_handlers c).
+
+(** the data path: pairs/keys/stores line up, all files are forced to agree, polynomials are
+    labelled with the basis their numbers are in, the result is converted to the request *)
+Definition data_good : bool :=
   c_key_order c && c_store_order c &&
-  is_cle (c_kind_missing c) &&
-  forallb guard_kind_ok (c_guards_every c) && forallb guard_kind_ok (c_guards_later c) &&
   forallb (fun p => match fst p with GSizeMismatch | GBasisMismatch => false | _ => true end)
           (c_guards_every c) &&
   has_guard GOversized (c_guards_every c) &&
   has_guard GSizeMismatch (c_guards_later c) && has_guard GBasisMismatch (c_guards_later c) &&
-  is_cle (c_kind_nointerp c) &&
   is_file (c_direct_label c) && is_file (c_interp_label c) &&
   match c_interp_size c with FileSize => true | _ => false end &&
   is_req (c_final_basis c) &&
-  basis_eqb (c_interp_via c) Chebyshev && c_interp_back c &&
-  prog_ok && handlers_ok (c_handlers c).
+  basis_eqb (c_interp_via c) Chebyshev && c_interp_back c.
+
+(** every fault of the property's quantifier is reported as CollisionLoadError *)
+Definition kinds_good : bool :=
+  is_cle (c_kind_missing c) &&
+  forallb guard_kind_ok (c_guards_every c) && forallb guard_kind_ok (c_guards_later c) &&
+  is_cle (c_kind_nointerp c).
+
+Definition cfg_good : bool := prog_good && data_good && kinds_good.
 
 End WithCfg.
 
 (** ** Theorems for every good cfg *)
-Section Theorems.
+Section ProgTheorems.
 Variable c : cfg.
-Hypothesis good : cfg_good c = true.
+Hypothesis good : prog_good c = true.
 
-Ltac split_good :=
-  let H := fresh "G" in
-  pose proof good as H; unfold cfg_good in H;
-  repeat (apply andb_true_iff in H; let H' := fresh "G" in destruct H as [H H']).
-
-Lemma g_key : c_key_order c = true. Proof. split_good; assumption. Qed.
-Lemma g_store : c_store_order c = true. Proof. split_good; assumption. Qed.
-Lemma g_missing : c_kind_missing c = CollisionLoadError.
-Proof. split_good. apply errkind_eqb_eq. assumption. Qed.
-Lemma g_every_kind : forallb guard_kind_ok (c_guards_every c) = true.
-Proof. split_good; assumption. Qed.
-Lemma g_later_kind : forallb guard_kind_ok (c_guards_later c) = true.
-Proof. split_good; assumption. Qed.
-Lemma g_over : has_guard GOversized (c_guards_every c) = true. Proof. split_good; assumption. Qed.
-Lemma g_size : has_guard GSizeMismatch (c_guards_later c) = true. Proof. split_good; assumption. Qed.
-Lemma g_basis : has_guard GBasisMismatch (c_guards_later c) = true. Proof. split_good; assumption. Qed.
-Lemma g_nointerp : c_kind_nointerp c = CollisionLoadError.
-Proof. split_good. apply errkind_eqb_eq. assumption. Qed.
-Lemma g_direct : c_direct_label c = FileBasis.
-Proof. split_good. destruct (c_direct_label c); try discriminate; reflexivity. Qed.
-Lemma g_interp : c_interp_label c = FileBasis.
-Proof. split_good. destruct (c_interp_label c); try discriminate; reflexivity. Qed.
-Lemma g_isize : c_interp_size c = FileSize.
-Proof. split_good. destruct (c_interp_size c); try discriminate; reflexivity. Qed.
-Lemma g_final : c_final_basis c = RequestedBasis.
-Proof. split_good. destruct (c_final_basis c); try discriminate; reflexivity. Qed.
-Lemma g_via : c_interp_via c = Chebyshev.
-Proof. split_good. apply basis_eqb_eq. assumption. Qed.
-Lemma g_back : c_interp_back c = true. Proof. split_good; assumption. Qed.
-Lemma g_prog : prog_ok c = true. Proof. split_good; assumption. Qed.
-Lemma g_handlers : handlers_ok (c_handlers c) = true. Proof. split_good; assumption. Qed.
+Lemma g_prog : prog_ok c = true.
+Proof. pose proof good as G. unfold prog_good in G. apply andb_true_iff in G. tauto. Qed.
+Lemma g_handlers : handlers_ok (c_handlers c) = true.
+Proof. pose proof good as G. unfold prog_good in G. apply andb_true_iff in G. tauto. Qed.
 
 (** *** loadCollisions installs exactly on success and reports the load's own error *)
 Lemma handler_reraise hs k : handlers_ok hs = true -> handler hs k = Err k.
@@ -366,6 +348,34 @@ Proof.
   rewrite loadCollisions_spec.
   destruct (newFromDirectory c dir N req parts true); rewrite IH; reflexivity.
 Qed.
+
+End ProgTheorems.
+
+Section DataTheorems.
+Variable c : cfg.
+Hypothesis good : data_good c = true.
+
+Ltac split_good :=
+  let H := fresh "G" in
+  pose proof good as H; unfold data_good in H;
+  repeat (apply andb_true_iff in H; let H' := fresh "G" in destruct H as [H H']).
+
+Lemma g_key : c_key_order c = true. Proof. split_good; assumption. Qed.
+Lemma g_store : c_store_order c = true. Proof. split_good; assumption. Qed.
+Lemma g_over : has_guard GOversized (c_guards_every c) = true. Proof. split_good; assumption. Qed.
+Lemma g_size : has_guard GSizeMismatch (c_guards_later c) = true. Proof. split_good; assumption. Qed.
+Lemma g_basis : has_guard GBasisMismatch (c_guards_later c) = true. Proof. split_good; assumption. Qed.
+Lemma g_direct : c_direct_label c = FileBasis.
+Proof. split_good. destruct (c_direct_label c); try discriminate; reflexivity. Qed.
+Lemma g_interp : c_interp_label c = FileBasis.
+Proof. split_good. destruct (c_interp_label c); try discriminate; reflexivity. Qed.
+Lemma g_isize : c_interp_size c = FileSize.
+Proof. split_good. destruct (c_interp_size c); try discriminate; reflexivity. Qed.
+Lemma g_final : c_final_basis c = RequestedBasis.
+Proof. split_good. destruct (c_final_basis c); try discriminate; reflexivity. Qed.
+Lemma g_via : c_interp_via c = Chebyshev.
+Proof. split_good. apply basis_eqb_eq. assumption. Qed.
+Lemma g_back : c_interp_back c = true. Proof. split_good; assumption. Qed.
 
 (** *** the loop *)
 Definition hd_ok (N : nat) (f : file) (hd : nat * basis) : Prop :=
@@ -587,6 +597,20 @@ Proof.
 Qed.
 
 (** *** error kinds *)
+Hypothesis kgood : kinds_good c = true.
+Ltac split_kgood :=
+  let H := fresh "G" in
+  pose proof kgood as H; unfold kinds_good in H;
+  repeat (apply andb_true_iff in H; let H' := fresh "G" in destruct H as [H H']).
+Lemma g_missing : c_kind_missing c = CollisionLoadError.
+Proof. split_kgood. apply errkind_eqb_eq. assumption. Qed.
+Lemma g_every_kind : forallb guard_kind_ok (c_guards_every c) = true.
+Proof. split_kgood; assumption. Qed.
+Lemma g_later_kind : forallb guard_kind_ok (c_guards_later c) = true.
+Proof. split_kgood; assumption. Qed.
+Lemma g_nointerp : c_kind_nointerp c = CollisionLoadError.
+Proof. split_kgood. apply errkind_eqb_eq. assumption. Qed.
+
 Lemma loop_err_kind dir N parts : wf_dir dir parts -> forall ps st k,
   loop c dir N parts ps st = Err k -> k = CollisionLoadError.
 Proof.
@@ -737,4 +761,4 @@ Proof.
         apply changeBasis_err in Ei. congruence.
 Qed.
 
-End Theorems.
+End DataTheorems.
